@@ -140,7 +140,7 @@ def run(chk):
 
     def do_tree(idx, tree, perms):
         lang = langs[idx % 6]
-        if lang in ("kotlin", "swift") and any(t in ("C", "SC") for t in tree):
+        if lang in ("kotlin", "swift", "scala") and any(t in ("C", "SC") for t in tree):
             lang = "typescript"          # write_const is todo!() there (C07 known finding)
         mode = "multi" if idx % 3 == 2 else "single"
         d = os.path.join(work, f"t{idx}")
@@ -159,7 +159,9 @@ def run(chk):
     for idx, tree, lang, mode, out in results:
         shas = {}
         for c, r, sha in out:
-            if r["exit"] != "ok":
+            if r["exit"] == "error" and "constants are not supported" in r["stderr"]:
+                sha = "refused:constants"          # a documented refusal (Kotlin/Swift/Scala); it must be the same outcome under every arrival order
+            elif r["exit"] != "ok":
                 raise ToolError(f"typeshare failed on a C06 tree {tree} ({lang}, {mode}): {r['stderr'][-300:]}")
             col.add(f"tree{idx}", sha, {"mode": mode, "dim": "arrival-order", "features": features(tree), "lang": lang,
                                         "detail": f"tree {tree} arrival {c['perm']}", "tree": tree, "perm": c["perm"]})
@@ -177,7 +179,7 @@ def run(chk):
     sample = rng.sample(sorted(trees), min(len(trees), 24 if thorough else 8))
     for k, tree in enumerate(sample):
         lang = langs[k % 6]
-        if lang in ("kotlin", "swift") and any(t in ("C", "SC") for t in tree):
+        if lang in ("kotlin", "swift", "scala") and any(t in ("C", "SC") for t in tree):
             lang = "go"
         for mode in ("single", "multi"):
             d = os.path.join(work, f"th{k}{mode}")
@@ -206,7 +208,7 @@ def run(chk):
     # split invariance (single-file mode): the same items in one file, one file per item, grouped by kind
     for k, tree in enumerate(sample):
         lang = langs[(k + 3) % 6]
-        if lang in ("kotlin", "swift") and any(t in ("C", "SC") for t in tree):
+        if lang in ("kotlin", "swift", "scala") and any(t in ("C", "SC") for t in tree):
             lang = "python"
         items = []
         for i, t in enumerate(tree, 1):
